@@ -53,14 +53,36 @@ def run(cx):
     r1(cx); r2(cx); r3(cx); r4(cx); r4_stack(cx); r5(cx); r6(cx)
 
 
+def hc_try_edges(body, du, call):
+    from vlib.cfg import question_mark_edges
+    return question_mark_edges(body, du, call)
+
+
 def r1(cx):
     h = hc.analyse_handle(cx)
     body, cfg, du = h.body, h.cfg, h.du
     sl = Slice(body, du)
     # the parser call(s): anything from serde_json that produces the Request
     parsers = [t for t in body.calls() if not t.callee.indirect and "serde_json" in t.callee.path and t.callee.name in ("from_slice", "from_str", "from_reader", "from_value")]
-    cx.check(len(parsers) == 1 and parsers[0].callee.name in ("from_slice", "from_str"), "C06.R1", "varlink:handle:single-parser", body.sp,
-             "expected exactly one serde_json parser call on the message (%s)" % [t.callee.name for t in parsers], note_ok=parsers[0].callee.name if parsers else "")
+    if h.deser_ctor is not None:
+        # streaming form: Deserializer::from_slice(buf) + T::deserialize(&mut de). serde_json::from_slice is exactly that plus de.end():
+        # without it bytes behind the first JSON value are silently accepted
+        P = h.deser_ctor
+        ends = [t for t in body.calls("=end") if "serde_json" in (t.callee.path + t.callee.resolved) and "Deserializer" in (t.callee.path + t.callee.resolved + str(t.callee.impl_self or ""))]
+        from vlib import absval
+        good = False
+        if ends:
+            news = [t for t in body.calls("=new") if "Call" in t.callee.path]
+            ce, be = hc_try_edges(body, du, h.from_slice)
+            ee, _x = hc_try_edges(body, du, ends[0])
+            good = ce is not None and ee is not None and bool(news) and cfg.must_pass_after(ce, [t.bb for t in news], {e.bb for e in ends}) and all(cfg.edge_dominates(ee, t.bb) for t in news)
+        cx.check(good, "C06.R1", "varlink:handle:whole-message-parser", "%s %s" % (h.from_slice.sp, body.path),
+                 "the message is read with a streaming Deserializer but `end()` is not checked before the request is served: `<request><garbage>` is answered instead of closing the connection",
+                 note_ok="Deserializer::from_slice + deserialize + end()")
+        parsers = [P]
+    else:
+        cx.check(len(parsers) == 1 and parsers[0].callee.name in ("from_slice", "from_str"), "C06.R1", "varlink:handle:single-parser", body.sp,
+                 "expected exactly one serde_json parser call on the message (%s)" % [t.callee.name for t in parsers], note_ok=parsers[0].callee.name if parsers else "")
     if len(parsers) != 1: return
     P = parsers[0]
     # raw bytes: the parser's input derives from the read buffer without a lossy conversion
@@ -71,7 +93,7 @@ def r1(cx):
              "the message is %s before it is parsed: byte sequences that are not valid UTF-8 are turned into U+FFFD and accepted, so a malformed message is answered instead of closing the connection" % (lossy or "not taken from the read buffer"),
              note_ok="parser input is the read buffer itself (strict UTF-8 validation by serde_json)")
     from vlib.cfg import question_mark_edges
-    ok_edge, _err = question_mark_edges(body, du, P)
+    ok_edge, _err = question_mark_edges(body, du, h.parse_done if h.deser_ctor is not None else P)
     if ok_edge is None: raise AnchorMissing("handle: `?` on the parser result")
     cn = [t for t in h.call_news]
     cx.floor("C06.R1", "Call::new sites in handle()", len(cn), 1)
@@ -250,7 +272,9 @@ def r6(cx):
         body = cx.mir.view(rb)
         if body.path in seen: continue
         seen.add(body.path)
-        dec = [t for t in body.calls() if not t.callee.indirect and "serde_json" in t.callee.path and t.callee.name in ("from_slice", "from_str", "from_value", "from_reader")]
+        dec = [t for t in body.calls() if not t.callee.indirect and "serde_json" in t.callee.path and t.callee.name in ("from_slice", "from_str", "from_value", "from_reader") and "Deserializer" not in t.callee.path]
+        # the streaming spelling: T::deserialize(&mut serde_json::Deserializer) and its end()
+        dec += [t for t in body.calls("=deserialize", "=end") if not t.callee.indirect and t.dest is not None and not t.dest.p and "serde_json" in body.ty(t.dest.l) and "Error" in body.ty(t.dest.l)]
         if not dec: continue
         cx.saw(body)
         cfg = Cfg(body); du = DefUse(body)
